@@ -12,6 +12,12 @@ class PyGrammar:
             for n in t.body:
                 if isinstance(n, ast.FunctionDef) and not n.args.args: s.funcs[n.name] = n
         s.rules = {}
+        s.regex_names = {"_", "RegExMatch"}          # the names arpeggio.RegExMatch is imported under
+        for t in trees:
+            for n in t.body:
+                if isinstance(n, ast.ImportFrom) and n.module == "arpeggio":
+                    for a in n.names:
+                        if a.name == "RegExMatch": s.regex_names.add(a.asname or a.name)
     def rule(s, name):
         if name in s.rules: return s.rules[name]
         f = s.funcs[name]; ret = [x for x in f.body if isinstance(x, ast.Return)]
@@ -19,6 +25,10 @@ class PyGrammar:
         s.rules[name] = None
         saved = getattr(s, "_locals", {})
         s._locals = {st.targets[0].id: st.value for st in f.body if isinstance(st, ast.Assign) and len(st.targets) == 1 and isinstance(st.targets[0], ast.Name)}
+        for st in f.body:                  # a, b = x, y
+            if isinstance(st, ast.Assign) and len(st.targets) == 1 and isinstance(st.targets[0], ast.Tuple) and isinstance(st.value, ast.Tuple) and len(st.targets[0].elts) == len(st.value.elts):
+                for tg_, v_ in zip(st.targets[0].elts, st.value.elts):
+                    if isinstance(tg_, ast.Name): s._locals[tg_.id] = v_
         try: s.rules[name] = s.expr(ret[0].value)
         finally: s._locals = saved
         return s.rules[name]
@@ -33,7 +43,7 @@ class PyGrammar:
             s.rule(e.id); return ("ref", e.id)
         if isinstance(e, ast.Call):
             fn = e.func.id if isinstance(e.func, ast.Name) else None
-            if fn == "_":
+            if fn in s.regex_names and e.args:
                 v = const_str(e.args[0], s.trees[0]) if not isinstance(e.args[0], ast.Constant) else e.args[0].value
                 if v is None and len(s.trees) > 1: v = const_str(e.args[0], s.trees[1])
                 if v is None: raise AnalysisError("regex of a grammar rule is not a constant string expression: " + ast.unparse(e)[:60])
@@ -311,7 +321,7 @@ def build(root):
     A["textx_model"] = ("seq", [c for c in A["textx_model"][1] if c != ("eof",)])
     tx = TxGrammar(open(root + "/textx/textx.tx", encoding="utf-8").read()); B = dict(tx.rules)
     for n in lang.body:      # base types used by textx.tx
-        if isinstance(n, ast.Assign) and isinstance(n.value, ast.Call) and getattr(n.value.func, "id", None) == "_" and isinstance(n.targets[0], ast.Name) and n.targets[0].id in ("ID", "STRING", "INT", "FLOAT", "BOOL"):
+        if isinstance(n, ast.Assign) and isinstance(n.value, ast.Call) and getattr(n.value.func, "id", None) in ("_", "RegExMatch") and isinstance(n.targets[0], ast.Name) and n.targets[0].id in ("ID", "STRING", "INT", "FLOAT", "BOOL"):
             _v = const_str(n.value.args[0], lang)
             if _v is None: raise AnalysisError("regex of base type %s is not a constant string expression" % n.targets[0].id)
             B.setdefault(n.targets[0].id, ("re", _v))
